@@ -10,6 +10,9 @@ Streams (model vs real code)
              orders forced through a shim for `os` inside jedi.file_io) vs Model.Walk.walkRoot:
              the ordered list of (is_file, path) events
   split      helpers.split_search_string vs Model.Search.splitSearchString
+  prefilter  the filter step of search_in_file_ios / _check_fs (does a file with these bytes reach the parser?)
+             vs Model.Prefilter.passes with the pattern, step order and flags the translator transcribed;
+             the word characters of python's re are a table in the request
   script     Script.search / complete_search vs Model.Search.searchFilter over Script.get_names
   search     Project.search / complete_search (x all_scopes x type prefix x patched limits) vs
              Model.Search.projectSearch fed with what the generator knows about every file
@@ -18,6 +21,10 @@ Streams (model vs real code)
              stubs foo.pyi, foo-stubs/), queries = a file name, a prefix of one, a prefix shared by
              file names and identifiers, type-qualified and dotted strings; the .py-only trees also
              go through Model.Search.projectSearch (stream search)
+  unicode    the same two calls on trees of gen/c19_clash.gen_unicode_tree: identifiers with letters outside
+             ASCII at the start / end / in the middle (étoile, café, naïve, 变量, straße, İstanbul, µ_val,
+             cafe+U+0301, की), files written in UTF-8 with / without BOM, latin-1 / cp1252 / koi8-r / gbk /
+             euc_jp with a coding declaration, LF / CRLF / CR; ast oracle on source spelling (unicode-oracle)
 Direct oracles (the property itself, independent of the model)
   search-complete  every definition the generator wrote with that spelling, in a file that is not
                    in an ignored place, is reported (within the limits); every module / package so named
@@ -39,7 +46,7 @@ import common
 from common import short
 from gen import c19_clash as CL
 
-MODELS = ['Walk', 'Search']
+MODELS = ['Walk', 'Search', 'Prefilter']
 MANIFEST = dict(
     text='Theorems over the model of FolderIO.walk (two-pointer sync = exactly the pruning the consumer chose), '
          'recurse_find_python_folders_and_files on an ordered directory tree with the listing order as a parameter '
@@ -64,9 +71,22 @@ MANIFEST = dict(
          'oracles from generator knowledge; the three former defects stay in the run as fixed probes. Stream clash: '
          'project trees in which file names and identifiers collide (foo.py defining foo / foo_x / class foo, packages, '
          'stubs), judged by an oracle that reads every definition (path, line, column, name, type) off the files with '
-         "python's ast.",
+         "python's ast. Regex pre-filter of step 2 (Model.Prefilter): regex.search for the pattern family \\b name "
+         '(\\b unless complete) over any alphabet and word predicate, and the step order of _check_fs; the translator '
+         'transcribes the pattern parts, str / bytes pattern, the flags and the statements of _check_fs; '
+         'prefilter_src_shape (str pattern, no re.ASCII, regex.search sees the decoded text) and prefilter_complete '
+         '(a file whose decoded text spells the name as a whole word is never filtered out, for every encoding) are '
+         'stated over these constants, with kernel-checked witnesses that matching on the raw bytes / with re.ASCII '
+         'filters out `def étoile()` / `Café = 1`. Stream unicode: identifiers with letters outside ASCII at the '
+         'start / end / middle, CJK, Cyrillic, Greek, case mappings that change length, names not in NFKC normal form, '
+         'combining marks and vowel signs, in files written as UTF-8 with and without BOM, with declared 8-bit and '
+         'multi-byte codecs, with LF / CRLF / CR newlines; judged by the ast oracle on SOURCE spelling and code point '
+         'columns. Stream prefilter: Model.Prefilter.passes against the real filter step (search_in_file_ios with '
+         'load_module_from_path replaced by a recorder) on small texts around such identifiers in all those encodings.',
     note='Modelled not verified: os.walk / os.scandir (listing order is a parameter, the shim and the real order are '
-         'both exercised), pathlib suffix (checked stream), the regex pre-filter (parameter `mentions`), '
+         'both exercised), pathlib suffix (checked stream), the regex pre-filter inside projectSearch (parameter `mentions`, '
+         "computed by the harness with python's re on the decoded text; Model.Prefilter models the matching itself with "
+         '`\\w` as a parameter), python_bytes_to_unicode (the decoded text is an input of the model), '
          'get_module_names (the generator supplies the definitions it wrote), str.lower (parameter), step 3 of '
          'Project._search_func beyond the project directory, dotted search strings (inference; only the negative '
          'clause is judged on them), stub-to-python conversion of module hits (trees with .pyi files are judged by the '
@@ -95,6 +115,30 @@ def _load_own_known(ctx):
     ctx.known[:] = [k for k in ctx.known if k.get('property') != ctx.pid or k['id'] in ids]
     have = {k['id'] for k in ctx.known}
     ctx.known += [k for k in own if k['id'] not in have and k['property'] == ctx.pid]
+
+
+# ----------------------------------------------------------------- the pre-filter pattern
+
+_pattern_shape = []
+
+
+def prefilter_regex(word, complete):
+    """the pattern of search_in_file_ios on the DECODED text, in the shape the translator transcribed
+    (Gen.C19.prefilterPattern): `\\b` name (`\\b` unless complete), or - after the proposed fix
+    c19-prefilter-non-word-edge - each `\\b` only next to a `\\w` character of the name.  It feeds the
+    parameter `mentions` of the model and decides which files count against the parse limit."""
+    if not _pattern_shape:
+        guarded = False
+        try:
+            with open(os.path.join(common.LEAN_DIR, 'JediModel', 'Gen', 'C19.lean'), encoding='utf-8') as f:
+                m = re.search(r'def prefilterPattern : List String := (.*)', f.read())
+            guarded = bool(m) and 'if name starts with' in m.group(1)
+        except OSError:
+            pass
+        _pattern_shape.append(guarded)
+    lead = r'\b' if not _pattern_shape[0] or re.match(r'\w', word) else ''
+    trail = '' if complete else (r'\b' if not _pattern_shape[0] or re.search(r'\w$', word) else '')
+    return re.compile(lead + re.escape(word) + trail)
 
 
 # ----------------------------------------------------------------- listing order
@@ -167,7 +211,7 @@ def ordered_tree(mode, top):
         content = ''
         if f == '.gitignore':
             with open(os.path.join(top, f), 'rb') as fh:
-                content = fh.read().decode('latin-1')
+                content = fh.read().decode('utf-8', 'ignore')    # as gitignored_paths decodes its lines
         fl.append({'name': f, 'content': content})
     return {'files': fl, 'dirs': [dict(ordered_tree(mode, os.path.join(top, d)), name=d) for d in dirs]}
 
@@ -355,7 +399,8 @@ def materialise(t):
         os.makedirs(path, exist_ok=True)
         for f in node['files']:
             with open(os.path.join(path, f['name']), 'wb') as fh:
-                fh.write(f['content'].encode('latin-1'))
+                # 'enc': the codec the text of a source file is written with (gen/c19_clash.encode_file)
+                fh.write(f['content'].encode(f.get('enc') or 'latin-1'))
         for d in node['dirs']:
             rec(d, os.path.join(path, d['name']))
     rec(t, root)
@@ -369,7 +414,8 @@ def cleanup(root):
 def strip_tree(t):
     """JSON-able copy without the Def objects"""
     return {'name': t.get('name', ''),
-            'files': [{'name': f['name'], 'content': f['content']} for f in t['files']],
+            'files': [dict({'name': f['name'], 'content': f['content']},
+                           **({'enc': f['enc']} if f.get('enc') else {})) for f in t['files']],
             'dirs': [strip_tree(d) for d in t['dirs']]}
 
 
@@ -626,6 +672,91 @@ def stream_walk(ctx, reqs):
     return cases, roots
 
 
+# ----------------------------------------------------------------- stream: prefilter
+
+class _BytesIO:
+    def __init__(self, path, data):
+        self.path, self._d = path, data
+
+    def read(self):
+        return self._d
+
+
+def prefilter_impl(name, complete, data):
+    """does the real search_in_file_ios / _check_fs hand a file with these bytes to the parser?
+    load_module_from_path is replaced by a recorder (the module it returns `is_compiled`, so nothing else
+    of jedi runs).  -> True / False / 'TypeError'"""
+    from jedi.inference import references
+    seen = []
+
+    class _M:
+        def is_compiled(self):
+            return True
+
+    def rec(inference_state, file_io, *a, **k):
+        seen.append(file_io)
+        return _M()
+    old = references.load_module_from_path
+    references.load_module_from_path = rec
+    try:
+        list(references.search_in_file_ios(None, [_BytesIO(Path('/nonexistent/m.py'), data)], name, complete=complete))
+    except TypeError:
+        return 'TypeError'
+    finally:
+        references.load_module_from_path = old
+    return bool(seen)
+
+
+PF_CONTEXT = [' ', '', '(', ')', '=', '.', ',', ':', '\n', '\r\n', '\t', '#', '"', 'x', '_', '1', 'é', 'ß', '变', '\u0301',
+              '·', 'я', '²', '\u00a0', '\ufeff']
+
+
+def stream_prefilter(ctx, reqs):
+    """Model.Prefilter.passes (pattern, step order, flags of the source) vs the real filter step, on small
+    texts around identifiers with letters outside ASCII, in several encodings"""
+    from parso.utils import python_bytes_to_unicode
+    rng = ctx.subrng('prefilter')
+    names = sorted({i for s in CL.UNI_STEMS + CL.STEMS[:2] for i in CL.idents_of(s)})
+    cases = []
+    for i in range(ctx.size(400, 6000)):
+        name = rng.choice(names)
+        complete = rng.random() < 0.4
+        if complete and rng.random() < 0.7:
+            name = name[:rng.randint(1, len(name))]
+        c = rng.random()
+        if c < 0.7:
+            inner = name
+        elif c < 0.85:
+            inner = name[:-1] or 'q'                 # the word itself does not occur
+        else:
+            inner = rng.choice(names)
+        text = ''.join(rng.choice(PF_CONTEXT) for _ in range(rng.randint(0, 3))) + inner + \
+            ''.join(rng.choice(PF_CONTEXT) for _ in range(rng.randint(0, 3)))
+        if rng.random() < 0.2:
+            text = text + rng.choice(PF_CONTEXT) + inner
+        fits = []
+        for enc, decl in CL.ENCODINGS:
+            t = text if decl is None else decl + '\n' + text
+            try:
+                if t.encode(enc).decode(enc) == t:
+                    fits.append((enc, t))
+            except UnicodeError:
+                pass
+        enc, t = rng.choice(fits)
+        data = t.encode(enc)
+        if rng.random() < 0.05:
+            data = data[:-1] + bytes([rng.choice([0xff, 0xe9, 0x80])])      # undecodable tail (errors='replace')
+        text = python_bytes_to_unicode(data, errors='replace')
+        impl = prefilter_impl(name, complete, data)
+        chars_ = sorted(set(text + name))
+        if any(ord(ch) > 0xffff for ch in chars_):
+            continue
+        reqs.append({'op': 'prefilter', 'name': name, 'complete': complete, 'text': text, 'data': list(data),
+                     'words': ''.join(ch for ch in chars_ if re.match(r'\w', ch))})
+        cases.append((('prefilter', {'name': name, 'complete': complete, 'text': text, 'enc': enc}), impl))
+    return cases
+
+
 # ----------------------------------------------------------------- stream: split
 
 def stream_split(ctx, reqs):
@@ -744,7 +875,7 @@ def script_oracle(ctx, case, q, gn, impl):
 def build_search_request(t, root, mode, q, complete, all_scopes, parse_limit, open_limit):
     wt, _, word = q.rpartition(' ')
     wt = 'function' if wt == 'def' else wt
-    regex = re.compile(r'\b' + re.escape(word) + (r'' if complete else r'\b'))
+    regex = prefilter_regex(word, complete)
     table = []
     strings = [word]
     tid = [0]
@@ -848,7 +979,7 @@ def search_oracle(ctx, t, root, case, q, complete, all_scopes, parse_limit, impl
            % ('complete_search' if complete else 'search', q, all_scopes))
     negative_check(ctx, t, case, got, how)
     # ---- completeness
-    regex = re.compile(r'\b' + re.escape(word) + (r'' if complete else r'\b'))
+    regex = prefilter_regex(word, complete)
     mention_files = [rel for rel, f in py_files(t) if regex.search(f['content'])]
     nontrivial = False
     if len(mention_files) <= parse_limit:
@@ -949,6 +1080,8 @@ def run_search_case(ctx, t, q, complete, all_scopes, parse_limit, mode, reqs, ca
 def tree_to_wire(t):
     def f_(f):
         d = {'name': f['name'], 'content': f['content']}
+        if f.get('enc'):
+            d['enc'] = f['enc']
         if '_defs' in f:
             d['defs'] = [[x.name, x.type, x.line, x.col, x.top] for x in f['_defs']]
         return d
@@ -959,6 +1092,8 @@ def tree_to_wire(t):
 def tree_from_wire(j):
     def f_(f):
         d = {'name': f['name'], 'content': f['content']}
+        if f.get('enc'):
+            d['enc'] = f['enc']
         if 'defs' in f:
             d['_defs'] = [Def(*x) for x in f['defs']]
         return d
@@ -1078,16 +1213,38 @@ def plan_clash(ctx, plan):
                               model=not has_stub)
 
 
+def plan_unicode(ctx, plan):
+    """identifiers with letters outside ASCII at the start / end / in the middle, files in several
+    encodings (UTF-8 with and without BOM, declared 8-bit and multi-byte codecs) and newline
+    conventions: gen/c19_clash.gen_unicode_tree; judged by the ast oracle (clash_oracle)"""
+    rng = ctx.subrng('unicode')
+    for i in range(ctx.size(8, 300)):
+        stubs = rng.random() < 0.25
+        t, stems = CL.gen_unicode_tree(rng, max_files=rng.choice([6, 10, 16]), stubs=stubs)
+        if rng.random() < 0.3:
+            add_gitignores(rng, t, density=0.2)
+            for _, d in all_dirs(t):
+                for f in d['files']:
+                    f.setdefault('enc', 'utf-8')       # .gitignore entries name non-ASCII folders / files
+        has_stub = any(rel.endswith('.pyi') for rel, _ in CL.src_files(t))
+        wire = write_wire(t)
+        mode = rng.choice(['real', 'sorted', 'reversed', 'shuffle%d' % rng.randint(0, 9)])
+        for q, complete in CL.unicode_queries(rng, t, stems, k=ctx.size(3, 6)):
+            for all_scopes in ((False, True) if rng.random() < 0.2 else (rng.random() < 0.5,)):
+                plan_case(plan, t, wire, q, complete, all_scopes, 30, mode, 'unicode', model=not has_stub)
+
+
 def judge_plan(ctx, plan, results, reqs, cases):
     for p, r in zip(plan, results):
         it, t, root = p['item'], p['t'], r['root']
         q, complete, all_scopes = it['string'], it['complete'], it['all_scopes']
         if r['impl'] is None:
             dotted = '.' in q.rpartition(' ')[2]
-            ctx.count(p['kind'] if p['kind'] == 'search' else 'clash-oracle', None, nontrivial=False,
+            ctx.count({'search': 'search', 'unicode': 'unicode-oracle'}.get(p['kind'], 'clash-oracle'), None,
+                      nontrivial=False,
                       bucket='exception:%s' % r['exc'] + ('/dotted' if dotted and p['kind'] != 'search' else ''))
             if not dotted and p['kind'] != 'search':
-                ctx.notes.append('clash: %s at %s for %r' % (r['exc'], r.get('exc_site'), q))
+                ctx.notes.append('%s: %s at %s for %s' % (p['kind'], r['exc'], r.get('exc_site'), ascii(q)))
             continue
         case = {'tree': strip_tree(t), 'string': q, 'complete': complete, 'all_scopes': all_scopes,
                 'parse_limit': it['parse_limit'], 'mode': it['mode']}
@@ -1095,8 +1252,9 @@ def judge_plan(ctx, plan, results, reqs, cases):
         if p['kind'] == 'search':
             search_oracle(ctx, t, root, case, q, complete, all_scopes, it['parse_limit'], impl4)
         else:
-            case['generator'] = 'clash'
-            clash_oracle(ctx, t, root, case, q, complete, all_scopes, it['parse_limit'], r['impl'])
+            case['generator'] = p['kind']
+            clash_oracle(ctx, t, root, case, q, complete, all_scopes, it['parse_limit'], r['impl'],
+                         stream='unicode-oracle' if p['kind'] == 'unicode' else 'clash-oracle')
         if r['req'] is not None:
             reqs.append(r['req'])
             cases.append((('search', case, root), impl4))
@@ -1106,6 +1264,7 @@ def stream_project_search(ctx, reqs):
     plan = []
     plan_search(ctx, plan)
     plan_clash(ctx, plan)
+    plan_unicode(ctx, plan)
     try:
         results = common.parallel_map('props.c19', 'search_worker', [p['item'] for p in plan])
     finally:
@@ -1143,7 +1302,8 @@ def clash_expected(t, q, complete, all_scopes):
     return defs, mods
 
 
-def clash_oracle(ctx, t, root, case, q, complete, all_scopes, parse_limit, impl5, quiet=False):
+def clash_oracle(ctx, t, root, case, q, complete, all_scopes, parse_limit, impl5, quiet=False,
+                 stream='clash-oracle'):
     """returns the list of (what, expected) that are missing (after reporting them)"""
     wt, _, word = q.rpartition(' ')
     got = {(os.path.relpath(mp, root), line, col, name, typ) for mp, line, col, name, typ in impl5}
@@ -1155,10 +1315,10 @@ def clash_oracle(ctx, t, root, case, q, complete, all_scopes, parse_limit, impl5
     if '.' in word or not word:
         # dotted strings go through inference: the property text quantifies over identifiers and
         # prefixes only - no completeness demand, the negative part above still applies
-        ctx.count('clash-oracle', key, nontrivial=False, bucket='dotted')
+        ctx.count(stream, key, nontrivial=False, bucket='dotted')
         return []
     missing = []
-    regex = re.compile(r'\b' + re.escape(word) + (r'' if complete else r'\b'))
+    regex = prefilter_regex(word, complete)
     mention_files = [rel for rel, f in CL.src_files(t) if regex.search(f['content'])]
     defs, mods = clash_expected(t, q, complete, all_scopes)
     mod_names = {m for m, _, _ in CL.module_names(t)}
@@ -1173,11 +1333,14 @@ def clash_oracle(ctx, t, root, case, q, complete, all_scopes, parse_limit, impl5
                 own = rel.split('/')[-2] if '/' in rel else ''
             if sibling_prefix_cause(t, rel):
                 cause = 'sibling-prefix'
+            elif CL.edge_not_word_char(word, complete):
+                cause = 'query-edge-is-not-a-regex-word-character'
             else:
                 cause = 'unknown'
             missing.append(('definition', list(exp)))
             ctx.fail('search-complete', 'definition in a non-ignored file is not reported',
-                     dict(case, cause=cause, file=rel, file_named_like_query=(own == word)),
+                     dict(case, cause=cause, file=rel, file_named_like_query=(own == word),
+                          encoding=dict(CL.src_files(t))[rel].get('enc'), query_shape=CL.nonascii_shape(word)),
                      expected=list(exp),
                      observed={'results_in_file': sorted(list(g) for g in got if g[0] == rel)}, how=how)
     elif len({g[0] for g in got if g[4] != 'module'}) > parse_limit:
@@ -1205,6 +1368,15 @@ def clash_oracle(ctx, t, root, case, q, complete, all_scopes, parse_limit, impl5
                  dict(case, cause=cause, file=paths[0]), expected=[paths, 1, modname, 'module'],
                  observed={'module_results': sorted(list(g) for g in got if g[4] == 'module')}, how=how)
     clash = word in mod_names and any(d[3] == word or (complete and d[3].startswith(word)) for d in defs)
+    if stream == 'unicode-oracle':
+        encs = sorted({(f.get('enc') or '-') + ('+crlf' if '\r\n' in f['content'] else '+cr' if '\r' in f['content'] else '')
+                       for rel, f in CL.src_files(t) if any(d[0] == rel for d in defs)})
+        ctx.count(stream, key, nontrivial=bool(defs or mods),
+                  bucket=bucket + '/' + CL.nonascii_shape(word) + ('/not-a-word-edge' if CL.edge_not_word_char(word, complete) else ''))
+        for e in encs:                     # histogram only: files (encoding, newlines) holding an expected definition
+            h = ctx.hist.setdefault('unicode-encodings', {})
+            h[e] = h.get(e, 0) + 1
+        return missing
     ctx.count('clash-oracle', key, nontrivial=bool(defs or mods),
               bucket=bucket + ('/query-is-file-name' if word in mod_names else
                                '/query-is-prefix-of-file-name' if any(m.startswith(word) for m in mod_names)
@@ -1371,6 +1543,21 @@ def compare(ctx, cases, answers):
                 # failing-input search: the walk oracles already ran on this input (stream_walk);
                 # for except_paths variants run them now
                 ctx.notes.append('walk disagreement on mode=%s' % case['mode'])
+        elif stream == 'prefilter':
+            ctx.count('prefilter', repr(case), nontrivial=not case['name'].isascii(),
+                      bucket='%s/%s/%s' % (impl, 'complete' if case['complete'] else 'exact', CL.nonascii_shape(case['name'])),
+                      sample=dict(case, passes=impl))
+            if ans != impl:
+                ctx.tie_broken('correspondence:prefilter', short({'case': case, 'impl': impl, 'model': ans}, 1500))
+                # failing-input search: the property at this level - a file whose decoded text holds the
+                # name between characters that cannot belong to an identifier must reach the parser
+                nm = case['name']
+                if impl is not True and re.search(r'(?:^|[ (=,.:\n\t])' + re.escape(nm) + (r'' if case['complete'] else r'(?:$|[ (=,.:\n\t)])'), case['text']) \
+                        and not CL.edge_not_word_char(nm, case['complete']):
+                    ctx.fail('prefilter', 'a file that spells the searched name as a whole word is filtered out before parsing',
+                             case, expected=True, observed=impl,
+                             how='references.search_in_file_ios(None, [file with these bytes], name, complete=..) with '
+                                 'load_module_from_path replaced by a recorder')
         elif stream == 'script':
             gn = key[2]
             model = [gn[m[4]] for m in ans]
@@ -1443,6 +1630,7 @@ def run(ctx):
         cases += timed('sync', stream_sync)
         cases += timed('gitignore', stream_gitignore)
         cases += timed('split', stream_split)
+        cases += timed('prefilter', stream_prefilter)
         cases += timed('script', stream_script)
         if ctx.model_ok:
             t = time.time()
@@ -1466,7 +1654,8 @@ def run(ctx):
         'pathlib.PurePath.suffix / .name (modelled, stream suffix); str(Path(p)) == p for the paths os.walk joins '
         '(normalised project root), so the str comparison of the code is string equality on model paths',
         '.gitignore contents are ASCII (bytes.decode(utf-8, ignore) is the identity)',
-        'the regex pre-filter of _check_fs is the parameter `mentions`; get_module_names/_remove_imports/.type are '
+        'the regex pre-filter of _check_fs is the parameter `mentions` of projectSearch (Model.Prefilter.passes models it: '
+        'unicode \\w and python_bytes_to_unicode are parameters there; the end-to-end unicode stream exercises both); get_module_names/_remove_imports/.type are '
         'the generator-known definitions of the generated files (assignments, def, async def, class, for, params)',
         'str.lower is a parameter; dotted search strings (inference) and step 3 beyond the project root are outside the model',
     ]
